@@ -78,7 +78,24 @@ func checkC18(p *load.Program, r *kit.Report) {
 		for _, e := range edgesOf(hasHdr, true) {
 			starts = append(starts, kit.EdgeStart(e))
 		}
-		reach := kit.Reach(f, starts, kit.Opts{BlockEdge: kit.EdgeSet(edgesOf(errNilGuards(f, check), true)...)})
+		// every test of proof.BlockHeader reads the same field until it is assigned
+		hdrKey := func(c ssa.Value) (string, bool, bool) {
+			b, ok := c.(*ssa.BinOp)
+			if !ok || (b.Op != token.EQL && b.Op != token.NEQ) || !kit.IsNilConst(b.Y) || !isProofField(b.X, bhF) {
+				return "", false, false
+			}
+			return "has-header", b.Op == token.NEQ, true
+		}
+		hdrKill := func(in ssa.Instruction) []string {
+			if st, ok := in.(*ssa.Store); ok {
+				if fl, _ := kit.FieldOfAddr(st.Addr); fl == bhF {
+					return []string{"has-header"}
+				}
+			}
+			return nil
+		}
+		reach := kit.Reach(f, starts, kit.Opts{BlockEdge: kit.EdgeSet(edgesOf(errNilGuards(f, check), true)...),
+			CondKey: hdrKey, Kill: hdrKill, Assume: map[string]bool{"has-header": true}})
 		bad = ""
 		for _, ret := range kit.Returns(f) {
 			if reach.Has(ret) && reach.ErrClass(ret) != kit.ErrNonNil {
@@ -571,13 +588,29 @@ func dedupShape(p *load.Program, d *ssa.Function) string {
 	// kept exactly behind {not equal} ∪ {first element}
 	first := kit.FindGuards(d, func(c ssa.Value) (bool, bool) {
 		b, ok := c.(*ssa.BinOp)
-		if !ok || (b.Op != token.EQL && b.Op != token.NEQ) {
+		if !ok {
 			return false, false
 		}
-		if z, ok := kit.ConstInt(b.Y); !ok || z != 0 {
+		z, isC := kit.ConstInt(b.Y)
+		if !isC {
 			return false, false
 		}
-		return true, b.Op == token.EQL
+		// "nothing kept yet / first element": X == 0, !(X != 0), !(X > 0), X <= 0, X < 1, !(X >= 1)
+		switch {
+		case b.Op == token.EQL && z == 0:
+			return true, true
+		case b.Op == token.NEQ && z == 0:
+			return true, false
+		case b.Op == token.GTR && z == 0:
+			return true, false
+		case b.Op == token.LEQ && z == 0:
+			return true, true
+		case b.Op == token.LSS && z == 1:
+			return true, true
+		case b.Op == token.GEQ && z == 1:
+			return true, false
+		}
+		return false, false
 	})
 	pass := append(edgesOf(first, true), eq.FailEdge())
 	// the loop header's body entry to keep: all paths must pass one of `pass` — and conversely the
